@@ -286,6 +286,14 @@ pub fn print_cond(c: &Cond, r: &mut Rng, extra_pct: u32) -> String {
             _ => " ".into(),
         }
     }
+    fn isp(r: &mut Rng, extra_pct: u32) -> String {
+        if extra_pct == 0 { return String::new(); }
+        match r.below(4) {
+            0 => " ".into(),
+            1 => "\t ".into(),
+            _ => String::new(),
+        }
+    }
     let wrap = |s: String, r: &mut Rng| -> String {
         if r.chance(extra_pct) {
             format!("({})", s)
@@ -295,12 +303,13 @@ pub fn print_cond(c: &Cond, r: &mut Rng, extra_pct: u32) -> String {
     };
     let s = match c {
         Cond::Id(i) => i.clone(),
-        Cond::All(i) => format!("all({})", i),
-        Cond::Of(i, n) => format!("of({},{}{})", i, if r.chance(50) { " " } else { "" }, n),
-        Cond::Cmp(f, k, op, lit) => format!("{}({}){}{}{}{}", k, f, sp(r), op, sp(r), lit),
-        Cond::CmpRev(f, k, op, lit) => format!("{}{}{}{}{}({})", lit, sp(r), op, sp(r), k, f),
-        Cond::StrEq(a, b) => format!("str({}){}=={}str({})", a, sp(r), sp(r), b),
-        Cond::CmpFF(a, k, op, b) => format!("{}({}){}{}{}{}({})", k, a, sp(r), op, sp(r), k, b),
+        // blanks inside the parentheses of all()/of()/casts are insignificant too
+        Cond::All(i) => { let (a, b) = (isp(r, extra_pct), isp(r, extra_pct)); format!("all({}{}{})", a, i, b) }
+        Cond::Of(i, n) => { let (a, b, c2) = (isp(r, extra_pct), isp(r, extra_pct), isp(r, extra_pct)); format!("of({}{}{},{}{}{})", a, i, b, if r.chance(50) { " " } else { "" }, n, c2) }
+        Cond::Cmp(f, k, op, lit) => { let (a, b) = (isp(r, extra_pct), isp(r, extra_pct)); format!("{}({}{}{}){}{}{}{}", k, a, f, b, sp(r), op, sp(r), lit) }
+        Cond::CmpRev(f, k, op, lit) => { let (a, b) = (isp(r, extra_pct), isp(r, extra_pct)); format!("{}{}{}{}{}({}{}{})", lit, sp(r), op, sp(r), k, a, f, b) }
+        Cond::StrEq(a, b) => { let (x, y) = (isp(r, extra_pct), isp(r, extra_pct)); format!("str({}{}{}){}=={}str({}{}{})", x, a, y, sp(r), sp(r), y, b, x) }
+        Cond::CmpFF(a, k, op, b) => { let (x, y) = (isp(r, extra_pct), isp(r, extra_pct)); format!("{}({}{}{}){}{}{}{}({}{}{})", k, x, a, y, sp(r), op, sp(r), k, y, b, x) }
         Cond::Not(x) => {
             let inner = print_cond(x, r, extra_pct);
             // `not` binds at 95: its operand must be an atom, a not, or parenthesised
